@@ -220,7 +220,9 @@ class ValueGen:
                 return ("char", r.choice([10, 32, 9, 13, 65, 97, 48, 0x3BB, 0x20AC, 0xE9, 40, 44, 59, 92, 34, 0x7E]))
             # names that collide with, or nearly with, the reserved words and the number / tag syntax
             tricky = ["nil", "true", "false", "nil?", "nilx", "ni", "tru", "truex", "fals", "falsey", "N", "M", "e", "inst", "uuid",
-                      "Inf", "NaN", "a.b", "x'", "-a", "+a", ".a", "a-1", "a1", "r", "x"]
+                      "Inf", "NaN", "a.b", "x'", "-a", "+a", ".a", "a-1", "a1", "r", "x",
+                      # colons inside a name (legal when not doubled): one, several, near a 16-byte boundary
+                      "a:b", "a:b:c", "http:port", "x:y:z:w", "db:user.id:v2", "abcdefghijklmn:o:p", "abcdefghijklmno:p:q:r"]
             if a < 0.85:
                 return ("kw", r.choice([None, None, self.name(), "nil", "true"]), r.choice([self.name(), self.name(), r.choice(tricky)]))
             nm = r.choice([self.name(), self.name(), "/", "+", "-", ".", "<=", "->x", r.choice(tricky[3:])])
@@ -258,7 +260,7 @@ class ValueGen:
             return ("set", [self.value(depth - 1) for _ in range(n)])
         if k < 0.94:
             return ("map", [self.value(depth - 1) for _ in range(2 * n)])
-        return ("tag", r.choice(["inst", "uuid", "my/tag", "x", "a.b/c-d"]), self.value(depth - 1))
+        return ("tag", r.choice(["inst", "uuid", "my/tag", "x", "a.b/c-d", "my:app:tag", "ns:x/t:y"]), self.value(depth - 1))
 
     # expected canonical text
     def expect(self, v):
